@@ -13,4 +13,16 @@ func init() {
 	intrinsics["reflect.TypeOf"] = func(m *Machine, fn *ssa.Function, a []value) value {
 		return poison{"result of reflect.TypeOf (reflection is not interpreted)"}
 	}
+
+	// math/rand's additive lagged Fibonacci source (rand.New(rand.NewSource(seed))): seeding runs ~1800
+	// iterations of a multiplicative congruential generator, which on a symbolic seed (time.Now) builds
+	// enormous terms. The source is over-approximated instead: Seed does nothing and every Uint64 is a
+	// fresh unconstrained 64-bit value; Int63/Int31/Intn/... are computed from it by the real library code.
+	intrinsics["(*math/rand.rngSource).Seed"] = func(m *Machine, fn *ssa.Function, a []value) value {
+		m.stats.Assumes["math/rand source: every draw is an arbitrary 64-bit value (seed ignored)"]++
+		return nil
+	}
+	intrinsics["(*math/rand.rngSource).Uint64"] = func(m *Machine, fn *ssa.Function, a []value) value {
+		return m.fresh("rand", 64)
+	}
 }
